@@ -316,6 +316,62 @@ func (u *faultyFS) Open(name string) (fs.File, error) {
 	return f, err
 }
 
+// eagerFS: a module whose files report the end of the file together with the last bytes (`n > 0, io.EOF`), which
+// io.Reader allows, and deliver at most `step` bytes per Read
+type eagerFS struct {
+	fstest.MapFS
+	step int
+}
+
+type eagerFile struct {
+	fs.File
+	data []byte
+	off  int
+	step int
+}
+
+func (f *eagerFile) Read(p []byte) (int, error) {
+	if f.off >= len(f.data) {
+		return 0, io.EOF
+	}
+	n := len(p)
+	if f.step > 0 && n > f.step {
+		n = f.step
+	}
+	if n > len(f.data)-f.off {
+		n = len(f.data) - f.off
+	}
+	copy(p, f.data[f.off:f.off+n])
+	f.off += n
+	if f.off == len(f.data) {
+		return n, io.EOF
+	}
+	return n, nil
+}
+
+func (f *eagerFile) Seek(off int64, whence int) (int64, error) {
+	switch whence {
+	case io.SeekStart:
+		f.off = int(off)
+	case io.SeekCurrent:
+		f.off += int(off)
+	case io.SeekEnd:
+		f.off = len(f.data) + int(off)
+	}
+	return int64(f.off), nil
+}
+
+func (u *eagerFS) Open(name string) (fs.File, error) {
+	f, err := u.MapFS.Open(name)
+	if err != nil {
+		return nil, err
+	}
+	if mf, ok := u.MapFS[name]; ok && mf.Mode.IsRegular() {
+		return &eagerFile{File: f, data: mf.Data, step: u.step}, nil
+	}
+	return f, nil
+}
+
 // runModuleOverTransport: a pull from an in-process server that serves the given module (fs.FS backed).
 func runModuleOverTransport(mod *rsyncd.Module, flags []string, dst string, c2s, s2c int, seed int64, deadline time.Duration) string {
 	a := newCapPipe(c2s, seed)
@@ -663,6 +719,52 @@ func suiteTrace(h *H) {
 				}
 				h.emit(fmt.Sprintf("!trace-readfault seed=%d failing-read=%d stale-copy=%v", h.seed, failAt, stale), strings.SplitN(out, ":", 2)[0], v, true)
 				h.stat("trace.readfault")
+			}
+		}
+		os.RemoveAll(dir)
+	}
+	// ---- a source whose reads report the end of the file together with the last bytes (io.Reader allows it): whole-file
+	// and delta path, several read sizes; the transfer succeeds and delivers the source's bytes
+	{
+		dir := filepath.Join(base, "eagereof")
+		T := time.Unix(1400000000, 0)
+		n := 0
+		for _, size := range []int{5, 700, 300 * 1024, 1<<20 + 77} {
+			for _, step := range []int{0, 1000, 256 * 1024} {
+				for _, stale := range []bool{false, true} {
+					if step == 1000 && size > 300*1024 && !h.thorough() {
+						continue
+					}
+					n++
+					content := h.bytes(size)
+					memfs := fstest.MapFS{"big": &fstest.MapFile{Data: content, Mode: 0o644, ModTime: T}, "small": &fstest.MapFile{Data: []byte("small"), Mode: 0o644, ModTime: T}}
+					mod := &rsyncd.Module{Name: "memfs", FS: &eagerFS{MapFS: memfs, step: step}}
+					dst := filepath.Join(dir, fmt.Sprintf("dst%d", n))
+					os.MkdirAll(dst, 0o755)
+					if stale {
+						old := append([]byte{}, content[:size*2/3]...)
+						if len(old) > 3 {
+							old[2] ^= 0x55
+						}
+						os.WriteFile(filepath.Join(dst, "big"), old, 0o644)
+					}
+					out := runModuleOverTransport(mod, []string{"-a"}, dst, 64*1024, 64*1024, int64(h.seed)+int64(n), 30*time.Second)
+					v := ""
+					switch {
+					case strings.HasPrefix(out, "timeout"):
+						v = "FAIL[C18] a session whose source reports the end of file with the last bytes never ends: " + out
+					case strings.HasPrefix(out, "panic"):
+						v = "FAIL[C08] " + out
+					case out != "ok":
+						v = "FAIL[C01] a source whose Read returns the last bytes together with io.EOF cannot be transferred: " + strings.SplitN(out, "\n", 2)[0]
+					default:
+						if b, err := os.ReadFile(filepath.Join(dst, "big")); err != nil || !bytes.Equal(b, content) {
+							v = "FAIL[C01] a source whose Read returns the last bytes together with io.EOF: success was reported and the destination does not hold the source's bytes"
+						}
+					}
+					h.emit(fmt.Sprintf("!trace-eagereof seed=%d size=%d step=%d stale-copy=%v", h.seed, size, step, stale), strings.SplitN(out, ":", 2)[0], v, true)
+					h.stat("trace.eagereof")
+				}
 			}
 		}
 		os.RemoveAll(dir)
